@@ -120,7 +120,7 @@ import "github.com/plgd-dev/go-coap/v3/message"
 //@   requires out != nil && len(out.Options) == 0 && cap(out.Options) >= len(m.Options) && out.Payload == nil
 //@   requires distinctObjects(m.Options, out.Options)
 //@   modifies out.Options, out.Options[0 : cap(out.Options)], out.Payload, out.Code, out.Token
-//@   apply VerifParseOfEncoding(data[hdrLen(data) : ], m.Options, tcpDefs(data[1 + extBytesOf(data[0] / 16)]))
+//@   apply VerifParseOfEncoding(data[hdrLen(data) : hdrLen(data) + bodyLen(data)], m.Options, tcpDefs(data[1 + extBytesOf(data[0] / 16)]))
 //@   ensures [decodes] e2 == nil && n2 == len(data)
 //@   ensures [fields] out.Code == m.Code
 //@   ensures [token] len(out.Token) == len(m.Token) && bytesEq(out.Token, m.Token)
